@@ -89,38 +89,159 @@ class SimLock(SimRLock):
         return SimRLock.acquire(self, blocking, timeout)
 
 
+class _Waiter:
+    """What a thread parked in SimCondition.wait() is blocked on."""
+    def __init__(self, cond):
+        self.cond = cond
+
+
+class SimCondition:
+    """threading.Condition on the simulated scheduler: wait() releases the lock and parks the thread,
+    notify(n) releases exactly n parked threads (in the order they arrived), nothing more."""
+    def __init__(self, lock=None):
+        self._lock = lock if lock is not None else SimRLock()
+        self._waiters = []
+        self._notified = set()
+
+    def acquire(self, *a, **kw):
+        return self._lock.acquire(*a, **kw)
+
+    def release(self):
+        self._lock.release()
+
+    def __enter__(self):
+        return self._lock.acquire()
+
+    def __exit__(self, *exc):
+        self._lock.release()
+        return False
+
+    def wait(self, timeout=None):
+        s = _active()
+        if s is None:
+            raise RuntimeError('wait() outside a running simulation would block forever')
+        w = _Waiter(self)
+        self._waiters.append(w)
+        self._lock.release()
+        ok = True
+        try:
+            if timeout is None:
+                while id(w) not in self._notified:
+                    s.block(w, 'cond.wait')
+            elif id(w) not in self._notified:
+                s.sleep(timeout, 'cond.timedwait')
+                ok = id(w) in self._notified
+        finally:
+            self._notified.discard(id(w))
+            if w in self._waiters:
+                self._waiters.remove(w)
+            self._lock.acquire()
+        return ok
+
+    def wait_for(self, predicate, timeout=None):
+        r = predicate()
+        while not r:
+            if not self.wait(timeout) and timeout is not None:
+                return predicate()
+            r = predicate()
+        return r
+
+    def notify(self, n=1):
+        s = _active()
+        for _ in range(n):
+            if not self._waiters:
+                return
+            w = self._waiters.pop(0)
+            self._notified.add(id(w))
+            if s is not None:
+                s.wake(w)
+
+    def notify_all(self):
+        self.notify(len(self._waiters))
+
+    notifyAll = notify_all
+
+
 class SimQueue:
+    """queue.Queue re-stated on the simulated primitives (same structure as CPython's: one mutex, the
+    conditions not_empty / not_full / all_tasks_done, the deque `queue`, `unfinished_tasks`), so that code which
+    reaches into those documented-by-source members meets the same semantics, lost wake-ups included."""
     def __init__(self, maxsize=0):
-        self.items = collections.deque()
+        self.maxsize = maxsize
+        self.queue = collections.deque()
+        self.mutex = SimLock()
+        self.not_empty = SimCondition(self.mutex)
+        self.not_full = SimCondition(self.mutex)
+        self.all_tasks_done = SimCondition(self.mutex)
+        self.unfinished_tasks = 0
+
+    @property
+    def items(self):
+        return self.queue
 
     def put(self, item, block=True, timeout=None):
-        s = _active()
-        if s is not None and not s.aborting:
-            s.yield_point('queue.put')
-        self.items.append(item)
-        if s is not None:
-            s.wake(self)
+        with self.not_full:
+            if self.maxsize > 0:
+                if not block:
+                    if len(self.queue) >= self.maxsize:
+                        raise _real_queue.Full()
+                else:
+                    while len(self.queue) >= self.maxsize:
+                        if _active() is None:
+                            raise _real_queue.Full()
+                        self.not_full.wait()
+            self.queue.append(item)
+            self.unfinished_tasks += 1
+            self.not_empty.notify()
 
-    put_nowait = put
+    def put_nowait(self, item):
+        return self.put(item, block=False)
 
     def get(self, block=True, timeout=None):
-        s = _active()
-        if s is not None and not s.aborting:
-            s.yield_point('queue.get')
-        while not self.items:
-            if not block or s is None:
-                raise _real_queue.Empty()
-            s.block(self, 'queue.wait')
-        return self.items.popleft()
+        with self.not_empty:
+            if not block or _active() is None:
+                if not self.queue:
+                    raise _real_queue.Empty()
+            elif timeout is None:
+                while not self.queue:
+                    self.not_empty.wait()
+            else:
+                if not self.queue:
+                    self.not_empty.wait(timeout)
+                if not self.queue:
+                    raise _real_queue.Empty()
+            item = self.queue.popleft()
+            self.not_full.notify()
+            return item
 
     def get_nowait(self):
         return self.get(block=False)
 
     def qsize(self):
-        return len(self.items)
+        with self.mutex:
+            return len(self.queue)
 
     def empty(self):
-        return not self.items
+        with self.mutex:
+            return not self.queue
+
+    def full(self):
+        with self.mutex:
+            return 0 < self.maxsize <= len(self.queue)
+
+    def task_done(self):
+        with self.all_tasks_done:
+            unfinished = self.unfinished_tasks - 1
+            if unfinished <= 0:
+                if unfinished < 0:
+                    raise ValueError('task_done() called too many times')
+                self.all_tasks_done.notify_all()
+            self.unfinished_tasks = unfinished
+
+    def join(self):
+        with self.all_tasks_done:
+            while self.unfinished_tasks:
+                self.all_tasks_done.wait()
 
 
 class ThreadingShim:
@@ -138,8 +259,38 @@ class ThreadingShim:
         self.locks.append(lk)
         return lk
 
+    def Condition(self, lock=None):
+        return SimCondition(lock)
+
+    def Event(self):
+        return SimEvent()
+
     def __getattr__(self, name):
         return getattr(_real_threading, name)
+
+
+class SimEvent:
+    def __init__(self):
+        self._cond = SimCondition(SimLock())
+        self._flag = False
+
+    def is_set(self):
+        return self._flag
+
+    def set(self):
+        with self._cond:
+            self._flag = True
+            self._cond.notify_all()
+
+    def clear(self):
+        with self._cond:
+            self._flag = False
+
+    def wait(self, timeout=None):
+        with self._cond:
+            if not self._flag:
+                self._cond.wait(timeout)
+            return self._flag
 
 
 class QueueShim:
